@@ -21,6 +21,7 @@ type checkFn func(c *Ctx, ev *Evidence) ([]Violation, error)
 var registry = map[string]checkFn{
 	"C01": runC01,
 	"C02": runC02,
+	"C03": runC03,
 	"C05": runC05,
 	"C07": runC07,
 	"C06": runC06,
